@@ -70,3 +70,12 @@ check("C08",
       "symbolic execution of the real Python code with z3 (symx) with canonical-form reduction (exact polynomial division, "
       "perfect squares), concrete replay",
       "DESIGN.md 4/C08")
+check("C14",
+      "Bounded symbolic execution of HexCell/QuadCell.quality (side normals, inner angles, edge lengths, neighbour centres) on "
+      "symbolic shape families; arccos/log10/pow uninterpreted with functional-consistency and ground monotonicity axioms. "
+      "z3 shows equality of the quality before/after each of the 24 (4) rotational renumberings, translation, pinned "
+      "rotation, uniform scaling, re-reading the same cell object after moving the grid in place, and the stretch clauses.",
+      "low-dimensional shape families (not free jitter of all corners); pinned rotation; VSMALL := 0 for scale/stretch "
+      "obligations; np.linalg.norm modelled as sqrt(sum of squares)",
+      "symbolic execution of the real Python code with z3 (symx), uninterpreted transcendental kernels, concrete replay",
+      "DESIGN.md 4/C14")
